@@ -103,8 +103,9 @@ class SimulationAlgorithm(BaseSimulationAlgorithm):
     def __init__(self, settings: AlgorithmSettings):
         super().__init__(settings)
         self.features = settings.parameters["features"]
-        self.visit_type = settings.parameters["visit_parameters"]["visit_type"]
-        self._set_param_study(settings.parameters["visit_parameters"])
+        visit_parameters = settings.parameters["visit_parameters"] or {}
+        self.visit_type = visit_parameters.get("visit_type")
+        self._set_param_study(visit_parameters)
         self._validate_algo_parameters()
 
     def _check_features(self):
@@ -313,22 +314,22 @@ class SimulationAlgorithm(BaseSimulationAlgorithm):
         """
 
         if self.visit_type == VisitType.DATAFRAME:
-            patient_number = dict_param["df_visits"].groupby("ID").size().shape[0]
-
-            self.param_study = {
-                "patient_number": patient_number,
-                "df_visits": dict_param["df_visits"],
-            }
+            # keep only what was given: missing or malformed entries are reported by the validation
+            self.param_study = {}
+            if "df_visits" in dict_param:
+                df_visits = dict_param["df_visits"]
+                self.param_study["df_visits"] = df_visits
+                if isinstance(df_visits, pd.DataFrame) and "ID" in df_visits.columns:
+                    self.param_study["patient_number"] = (
+                        df_visits.groupby("ID").size().shape[0]
+                    )
 
         elif self.visit_type == VisitType.RANDOM:
+            # keep only what was given: missing entries are reported by the validation
             self.param_study = {
-                "patient_number": dict_param["patient_number"],
-                "first_visit_mean": dict_param["first_visit_mean"],
-                "first_visit_std": dict_param["first_visit_std"],
-                "time_follow_up_mean": dict_param["time_follow_up_mean"],
-                "time_follow_up_std": dict_param["time_follow_up_std"],
-                "distance_visit_mean": dict_param["distance_visit_mean"],
-                "distance_visit_std": dict_param["distance_visit_std"],
+                name: dict_param[name]
+                for name, _ in self._PARAM_REQUIREMENTS["random"]
+                if name in dict_param
             }
 
             # Add optional spacing param if provided
